@@ -143,7 +143,11 @@ func (i *interpreter) ensureInit(pkg *ssa.Package, g *ssa.Global) {
 			defer func() { i.run = nil }()
 		}
 		saved := i.run.steps
+		// package initialisation happens before every goroutine: not subject to race detection
+		wasOn := i.sch.raceOn
+		i.sch.raceOn = false
 		call(i, nil, token.NoPos, init, nil)
+		i.sch.raceOn = wasOn
 		i.run.steps = saved
 	}
 	i.initState[pkg] = 2
@@ -160,7 +164,10 @@ var allowUninit = map[string]bool{
 func dispatchSpecial(i *interpreter, fr *frame, fn *ssa.Function, args []value) (value, bool) {
 	name := fn.String()
 	if st, ok := i.stubs[name]; ok {
-		return call(i, fr.caller, token.NoPos, st, args), true
+		// a stub may call the function it replaces
+		if sf, isFn := st.(*ssa.Function); !isFn || fr.caller == nil || fr.caller.fn != sf {
+			return call(i, fr.caller, token.NoPos, st, args), true
+		}
 	}
 	if ext := externals[name]; ext != nil {
 		return ext(fr, args), true
